@@ -9,18 +9,69 @@ Decided clause: frame discipline in getBH_level2 (E2-FRAME):
   F6  the left-handed flip precedes pixel aggregation;  F7 it is reached for every sensor (not nested under the rotation test, not
       after a `continue`);  F8 every pixel block goes through the aggregator whatever its size
   F9  a constant index into a pose path (`_orientation[0]`) is used only under a staticness guard (or as `[-1]` padding)
+  F11 the aggregator is the NumPy function of exactly the given name: every `getattr(np, X)` in check_format_pixel_agg has X = the
+      parameter itself, and the function returned is bound from such a lookup
+  F12 handedness domain: the Sensor.handedness setter stores the value its membership test admitted, and every literal the
+      attribute is compared with (field code, display) is a member of the admitted set
 Not decided: pixel slice offsets, the `unrotated`/`static` fast-path predicates, pixel_agg axis arithmetic.
 """
+import ast
+
 import frame_rules
+import rules_domain
+from common import AnalysisError, Finding, norm
 
 EXPLANATION = ("coordinate-frame typing of getBH_level2: pixel placement (rotate local offsets, then add the sensor position) and the back-rotation "
                "of the field into the sensor frame must be well typed on every branch; the left-handed flip is the x component only. "
                "Decides direction/order of the sensor transforms, not slice offsets, fast-path predicates or pixel aggregation.")
 
 
+def f11(repo, res):
+    fn = repo.func("magpylib._src.input_checks", "check_format_pixel_agg")
+    rel = "magpylib/_src/input_checks.py"
+    p = fn.args.args[0].arg
+    looks = [c for c in ast.walk(fn) if isinstance(c, ast.Call) and isinstance(c.func, ast.Name) and c.func.id == "getattr"
+             and c.args and ast.unparse(c.args[0]) == "np"]
+    res.require(looks, "anchor vanished: getattr(np, <pixel_agg>) lookup in check_format_pixel_agg")
+    for c in looks:
+        ok = len(c.args) >= 2 and isinstance(c.args[1], ast.Name) and c.args[1].id == p
+        res.ob(f"F11:{norm(c)}", ok, {"rule": "F11", "lookup": norm(c), "parameter": p})
+        if not ok:
+            res.add(Finding("F11", rel, "check_format_pixel_agg", c, f"the aggregation function is looked up under a name other than the given `{p}`: "
+                            "the result is not the named NumPy reduction of the pixel values", c.lineno))
+    bound = {}
+    for s in ast.walk(fn):
+        if isinstance(s, ast.Assign) and len(s.targets) == 1 and isinstance(s.targets[0], ast.Name):
+            bound.setdefault(s.targets[0].id, []).append(s.value)
+    for r in [r for r in ast.walk(fn) if isinstance(r, ast.Return) and r.value is not None]:
+        v = r.value
+        if isinstance(v, ast.Constant) and v.value is None:
+            continue
+        ok = isinstance(v, ast.Name) and v.id in bound and all(d in looks for d in bound[v.id])
+        res.ob(f"F11:return:{norm(r)}", ok, {"rule": "F11", "return": norm(r)})
+        if not ok:
+            res.add(Finding("F11", rel, "check_format_pixel_agg", r, "the function returned is not (only) the result of the lookup `getattr(np, <given name>)`", r.lineno))
+
+
+def f12(repo, res):
+    n = rules_domain.checked_is_stored(repo, res, "F12", only=lambda q: q.startswith("Sensor.handedness"))
+    res.require(n >= 1, "anchor vanished: membership test in the Sensor.handedness setter")
+    inst = [i for i in rules_domain.setter_instances(repo) if i[1].startswith("Sensor.handedness")]
+    members = rules_domain.literal_members(inst[0][7])
+    cons = rules_domain.consumer_literals(repo, "handedness")
+    res.require(len(cons) >= 2, "anchor vanished: comparisons of the handedness attribute (field code and display)")
+    for m, q, c, lit_ in cons:
+        ok = members is None or lit_ in members
+        res.ob(f"F12:consumer:{q}:{norm(c)}", ok, {"rule": "F12", "consumer": q, "comparison": norm(c), "admitted": sorted(members or [])})
+        if not ok:
+            res.add(Finding("F12", m.rel, q, c, f"handedness is compared with {lit_!r}, which the setter never admits ({sorted(members)})", c.lineno))
+
+
 def run(repo, res, tier):
-    res.rules = ["F3 pixel placement / back-rotation typing", "F4 handedness flips component 0 only", "F5 path predicates quantify over the path", "F6 flip before aggregation", "F7 flip reached for every sensor", "F8 aggregation unconditional", "F9 constant path index only under a staticness guard"]
+    res.rules = ["F3 pixel placement / back-rotation typing", "F4 handedness flips component 0 only", "F5 path predicates quantify over the path", "F6 flip before aggregation", "F7 flip reached for every sensor", "F8 aggregation unconditional", "F9 constant path index only under a staticness guard", "F11 aggregator lookup by the given name", "F12 handedness domain"]
     extra = frame_rules.c04(repo, res)
+    f11(repo, res)
+    f12(repo, res)
     res.assumptions += ["declared types: sens.pixel : Vec[sens], sens._orientation : Rot[sens->G], sens._position : Pt[G]; getBH_level1(...) : Vec[G]"]
     return extra
 
